@@ -447,10 +447,11 @@ def free_structure_job(eng, tables, prop, which, deadline, max_paths=None, initi
 
 # ------------------------------------------------------------------------------- C06 histories
 
-def header_palette(ctx, eng, tables, name):
+def header_palette(ctx, eng, tables, name, members=(0, 1, 2, 3)):
     """empty | alg only | kid only | one extra parameter (enough to separate 'empty -> zero-length
-    bstr' from 'encoded map', and to make protected headers differ)."""
-    return header_palette_k(ctx, eng, tables, name, ctx.choose(4, "hdr@" + name))
+    bstr' from 'encoded map', and to make protected headers differ); `members` selects a subset."""
+    members = ctx.side.get("palette", members)
+    return header_palette_k(ctx, eng, tables, name, members[ctx.choose(len(members), "hdr@" + name)])
 
 
 def header_palette_k(ctx, eng, tables, name, k):
@@ -513,7 +514,8 @@ FAMILIES = {
 }
 
 
-def history_job(eng, tables, prop, tname, steps, deadline, max_paths=None, initial=None, bfs=False, slice_s=None):
+def history_job(eng, tables, prop, tname, steps, deadline, max_paths=None, initial=None, bfs=False, slice_s=None,
+                palette=(0, 1, 2, 3)):
     """Builder call histories of length <= steps (setters and create/try-create helpers in any
     order), then build -> encode -> decode (Value level, byte level, tagged) -> verify/decrypt with
     the same or a different AAD."""
@@ -527,6 +529,7 @@ def history_job(eng, tables, prop, tname, steps, deadline, max_paths=None, initi
 
     def harness(ctx):
         problems = []
+        ctx.side["palette"] = tuple(palette)
         b = ctx.call("%s::new" % B, [])
         aad = ctx.fresh_opaque("aad", "vec")
         created = None          # (record of the creating closure, its returned bytes, signer index)
@@ -739,7 +742,10 @@ def history_job(eng, tables, prop, tname, steps, deadline, max_paths=None, initi
 def history_spec(ctx):
     """The decision sequence that identifies the history (steps, palettes, wire form)."""
     out = []
+    pal = ctx.side.get("palette", (0, 1, 2, 3))
     for label, k in ctx.trace:
+        if label.startswith("hdr@"):
+            k = pal[k]                  # the replayer is told the palette member, not the decision index
         if label.startswith(("step", "hdr@", "creator-fails", "wire", "same-aad", "rctx")):
             out.append("%s=%d" % (label.replace("@", "."), k))
     return ",".join(out) or "-"
